@@ -101,6 +101,50 @@ def install(ws, gname):
     open(target, 'w').write(src)
 
 
+def libtest_status(stdout, stderr):
+    """test name (last path segment) -> 'ok' | 'FAILED', from the output of one libtest binary run with --nocapture and several threads.
+
+    libtest writes "test NAME ... " and the verdict with separate write calls, so a `println!` of a test that is still running on
+    another thread can land between the two ("test a::canary ... ENUM x cases=3 nontrivial=3" / "FAILED" on the next line): the
+    per-test lines are not reliable on their own (this made the canary of one group look as if it had not failed in 1 run out of
+    some hundreds).  What is reliable is what libtest prints after the last test thread has ended: the list under the last
+    "failures:" header and the "test result:" line.  When that summary is there and consistent with itself it decides every test
+    (FAILED when listed, ok otherwise: a test that did not run at all is caught by the zero-cases guard of the caller);
+    the per-test lines, the panic messages on stderr and nothing else are used when the process died before the summary."""
+    status = {}
+    last = lambda n: n.split('::')[-1]
+    ms = list(re.finditer(r'^test result: \S+ (\d+) passed; (\d+) failed; (\d+) ignored;', stdout, re.M))
+    if len(ms) == 1:   # every group runs exactly one test binary (--lib or --bin)
+        m = ms[0]
+        n_ok, n_failed = int(m.group(1)), int(m.group(2)) + 0
+        n_ign = int(m.group(3))
+        head = stdout[:m.start()]
+        listed = []
+        k = head.rfind('\nfailures:\n')
+        if k >= 0:
+            for line in head[k + len('\nfailures:\n'):].split('\n'):
+                if line.startswith('    ') and line.strip():
+                    listed.append(line.strip())
+                elif listed:
+                    break
+        # "test NAME ... " is one write call, it is never split; ignored tests are printed with their verdict in the same call
+        ran = [last(x.group(1)) for x in re.finditer(r'^test (\S+) \.\.\. (?!ignored)', head, re.M)]
+        if n_ign == 0 and len(listed) == n_failed and len(set(ran)) == len(ran) == n_ok + n_failed and {last(n) for n in listed} <= set(ran):
+            for n in ran:
+                status[n] = 'ok'
+            for n in listed:
+                status[last(n)] = 'FAILED'
+            return status
+    # no (consistent) summary: the process was killed, left through the watchdog of `Tally`, or aborted
+    for x in re.finditer(r'^test (\S+) \.\.\. (ok|FAILED)', stdout, re.M):
+        status[last(x.group(1))] = x.group(2)
+    for x in re.finditer(r'(\S+) \.\.\. (ok|FAILED)', stdout):
+        status.setdefault(last(x.group(1)), x.group(2))
+    for x in re.finditer(r"^thread '([^']+)'[^\n]*panicked at", stderr, re.M):
+        status[last(x.group(1))] = 'FAILED'
+    return status
+
+
 def run_groups(prop, gnames, tier, scratch, only=None):
     results = []
     try:
@@ -133,18 +177,17 @@ def run_groups(prop, gnames, tier, scratch, only=None):
         tmo = max(t.get('timeout', 600) for t in tests) + 900
         try:
             p = subprocess.run(cmd, cwd=ws, env=env, capture_output=True, text=True, timeout=tmo, start_new_session=True)
-            out = p.stdout + '\n' + p.stderr
+            stdout, stderr = p.stdout, p.stderr
+            out = stdout + '\n' + stderr
         except subprocess.TimeoutExpired as e:
-            out = ((e.stdout or b'').decode(errors='replace') if isinstance(e.stdout, bytes) else (e.stdout or '')) + '\nOUTER TIMEOUT'
+            stdout = (e.stdout or b'').decode(errors='replace') if isinstance(e.stdout, bytes) else (e.stdout or '')
+            stderr = (e.stderr or b'').decode(errors='replace') if isinstance(e.stderr, bytes) else (e.stderr or '')
+            stdout = stdout.split('\ntest result:')[0]   # a run that was killed has no verdict of its own
+            out = stdout + '\nOUTER TIMEOUT'
             subprocess.run(['pkill', '-9', '-f', target_dir])
         r['cmd'] = f'(cd <scratch copy of /repo> && {" ".join(cmd)})'
         r['solver_s'] = time.time() - t0
-        status = {}
-        for m in re.finditer(r'^test (\S+) \.\.\. (ok|FAILED)', out, re.M):
-            status[m.group(1).split('::')[-1]] = m.group(2)
-        # with --nocapture the "test x ... ok" line may be glued after output; also scan summary
-        for m in re.finditer(r'(\S+) \.\.\. (ok|FAILED)', out):
-            status.setdefault(m.group(1).split('::')[-1], m.group(2))
+        status = libtest_status(stdout, stderr)
         tallies = {m.group(1): (int(m.group(2)), int(m.group(3))) for m in re.finditer(r'ENUM (\S+) cases=(\d+) nontrivial=(\d+)', out)}
         fails = {}
         for m in re.finditer(r'FAILING INPUT (\S+) (.*)', out):
@@ -153,6 +196,8 @@ def run_groups(prop, gnames, tier, scratch, only=None):
             ob = f'enum/{gname}/{t["name"]}'
             st = status.get(t['name'])
             if t.get('canary'):
+                if st is None and t['name'] in fails:
+                    st = 'FAILED'   # `Tally::finish` prints the failing inputs and then panics
                 ok = st == 'FAILED'
                 r['canaries'].append(dict(fn=ob, must_fail_failed=ok))
                 if not ok:
